@@ -92,12 +92,52 @@ def load_findings(prop_id: str) -> list[dict]:
 
 
 # ----------------------------------------------------------------------------------------------- driving
-def _worker_init(repo: str):
+def respell(sql: str, mode: str) -> str:
+    """change the letter case of everything outside '...', "..." and $$...$$ (keywords and unquoted identifiers)"""
+    out, i, n = [], 0, len(sql)
+    while i < n:
+        c = sql[i]
+        if c in "'\"":
+            j = i + 1
+            while j < n:
+                if sql[j] == "\\" and c == "'":
+                    j += 2
+                    continue
+                if sql[j] == c:
+                    if j + 1 < n and sql[j + 1] == c:
+                        j += 2
+                        continue
+                    break
+                j += 1
+            out.append(sql[i:j + 1])
+            i = j + 1
+        elif sql.startswith("$$", i):
+            j = sql.find("$$", i + 2)
+            j = n if j < 0 else j + 2
+            out.append(sql[i:j])
+            i = j
+        else:
+            out.append(c.upper() if mode == "upper" else c.lower())
+            i += 1
+    return "".join(out)
+
+
+def _worker_init(repo: str, respell_mode: str | None = None):
     import logging
 
     logging.getLogger("sqlglot").setLevel(logging.ERROR)
     sys.path.insert(0, repo)
     os.environ.setdefault("PYTHONHASHSEED", "0")
+    if respell_mode:
+        # C02's metamorphic re-run: every statement reaches fakesnow in another letter case
+        import fakesnow.cursor as fc
+
+        orig = fc.FakeSnowflakeCursor.execute
+
+        def execute(self, command, *a, **kw):
+            return orig(self, respell(command, respell_mode) if isinstance(command, str) else command, *a, **kw)
+
+        fc.FakeSnowflakeCursor.execute = execute
 
 
 def _drive_chunk(args):
@@ -284,14 +324,14 @@ class Run:
                 self.behaviours[f"pinned-{f['name']}"] = f["history"]
 
     # ---- 3. driving
-    def drive_all(self) -> list[dict]:
+    def drive_all(self, respell_mode: str | None = None) -> list[dict]:
         items = list(self.behaviours.items())
         random.Random(self.seed).shuffle(items)
         nchunks = max(1, min(len(items), NPROC * 4))
         chunks = [items[k::nchunks] for k in range(nchunks)]
         modname, clsname = type(self.prop).__module__, type(self.prop).__name__
         traces = []
-        with ProcessPoolExecutor(max_workers=NPROC, initializer=_worker_init, initargs=(REPO,)) as ex:
+        with ProcessPoolExecutor(max_workers=NPROC, initializer=_worker_init, initargs=(REPO, respell_mode)) as ex:
             for res in ex.map(_drive_chunk, [(modname, clsname, c, self.seed) for c in chunks]):
                 traces += res
         log(f"drove {len(traces)} behaviours")
